@@ -74,12 +74,22 @@ def convergence_facts(f, cfg: CFG):
                 deps.add(POS)
         return frozenset(deps)
 
+    def is_constr_call(e):
+        return isinstance(e, ast.Call) and isinstance(e.func, ast.Attribute) and e.func.attr == "constr" and len(e.args) == 1
+
     def node_gen(n, state):
         a = n.ast
         out = set()
         if n.kind == "stmt" and isinstance(a, ast.Assign) and len(a.targets) == 1 and isinstance(a.targets[0], ast.Name):
             v = a.targets[0].id
             out.add(("val", v, expr_deps(a.value, state) - {v}))
+            # direct constraint value / its norm (the residual itself, not something derived from it)
+            if is_constr_call(a.value):
+                out.add(("cval", v))
+            if isinstance(a.value, ast.Call) and norm(a.value.func) in norm_params and len(a.value.args) == 1:
+                arg = a.value.args[0]
+                if is_constr_call(arg) or (isinstance(arg, ast.Name) and ("cval", arg.id) in state):
+                    out.add(("resid", v))
         return out
 
     def kill(n, fact):
@@ -94,6 +104,9 @@ def convergence_facts(f, cfg: CFG):
                 return True
         if fact[0] == "lt":
             if fact[1] in defs or fact[2] in defs:
+                return True
+        if fact[0] in ("cval", "resid"):
+            if fact[1] in defs or _is_pos_write(n):
                 return True
         return False
 
@@ -154,7 +167,7 @@ def rule_r1_r2(rep, program, et, prop=PROP, only_projection=False, rule_ids=("R1
                             deps.add(x.id)
                             deps |= set(vals.get(x.id, ()))
                 if is_proj:
-                    good = POS in deps and tol == "constraint_tol"
+                    good = ("resid", e) in st and tol == "constraint_tol"
                 else:
                     good = bool(retnames & set(deps))
                 why.append(f"{e}<{tol} deps={sorted(deps)}")
